@@ -8,10 +8,11 @@ import (
 // sequential muxer scenarios: one writer, observation at rest after every write.
 
 type muxSeqOpts struct {
-	gen     muxGen
-	oracle  func(w *muxWorld)
-	query   bool // append a query string to playlist requests
-	onWrite func(w *muxWorld, cl *writeCall)
+	gen        muxGen
+	oracle     func(w *muxWorld)
+	query      bool // append a query string to playlist requests
+	checkDelta bool // also fetch and check the delta update at every playlist change (Low-Latency)
+	onWrite    func(w *muxWorld, cl *writeCall)
 }
 
 func runMuxSeq(r *Run, o *muxSeqOpts) {
@@ -23,6 +24,7 @@ func runMuxSeq(r *Run, o *muxSeqOpts) {
 		r.Probe("start-error")
 		return
 	}
+	w.obs.checkDelta = o.checkDelta
 	if o.query && r.T.Chance(1, 3) {
 		w.obs.query = Pick(r.T, "token=abc", "a=1&b=2", "x=%20y")
 	}
@@ -87,14 +89,15 @@ var allVariants = []string{"mpegts", "fmp4", "ll"}
 
 func scC04(r *Run) {
 	runMuxSeq(r, &muxSeqOpts{
-		gen:    muxGen{variants: allVariants, minCalls: 200, maxCalls: 1500, fastRotation: true, paramChanges: true, negativeStart: true},
-		oracle: func(w *muxWorld) { w.obs.oracleC04(r) },
+		gen:        muxGen{variants: allVariants, minCalls: 200, maxCalls: 1500, fastRotation: true, paramChanges: true, negativeStart: true},
+		oracle:     func(w *muxWorld) { w.obs.oracleC04(r) },
+		checkDelta: true,
 	})
 }
 
 func scC05(r *Run) {
 	runMuxSeq(r, &muxSeqOpts{
-		gen:    muxGen{variants: allVariants, minCalls: 100, maxCalls: 600, fastRotation: true, paramChanges: true, negativeStart: true},
+		gen:    muxGen{variants: allVariants, minCalls: 100, maxCalls: 600, fastRotation: true, paramChanges: true, negativeStart: true, allowZeroDur: true},
 		oracle: func(w *muxWorld) { w.obs.oracleC05(r) },
 		query:  true,
 	})
